@@ -14,7 +14,7 @@ fn parts(tier: Tier) -> Vec<(TKind, usize, usize, bool)> {
 fn full_parts(tier: Tier) -> Vec<(TKind, usize, usize)> {
     match tier {
         Tier::Quick => vec![(TKind::Model, 2, 2), (TKind::Pci, 1, 1)],
-        Tier::Thorough => vec![(TKind::Model, 2, 4), (TKind::Model, 3, 3), (TKind::Pci, 2, 3), (TKind::MmioLegacy, 2, 3)],
+        Tier::Thorough => vec![(TKind::Model, 2, 3), (TKind::Model, 3, 2), (TKind::Pci, 2, 2), (TKind::MmioLegacy, 2, 2)],
     }
 }
 
